@@ -696,7 +696,8 @@ func (d *urlValuesDecoder) DecodeObject(param string, sm *openapi3.Serialization
 		return nil, false, err
 	}
 
-	found := false
+	// an object made only of additional properties is present as soon as it has a member
+	found := len(schema.Value.Properties) == 0 && len(val) > 0
 	for propName := range schema.Value.Properties {
 		if _, ok := props[propName]; ok {
 			found = true
